@@ -251,6 +251,10 @@ fn crash_case(tag: u8, payload: &[u8]) -> Option<Value> {
             "what": "crash",
         })),
         4 => Some(json!({"kind": "opaque", "bytes": payload.to_vec(), "what": "crash"})),
+        6 if payload.len() >= 9 => {
+            let w = |i: usize| u16::from_le_bytes([payload[1 + 2 * i], payload[2 + 2 * i]]);
+            Some(json!({"kind": "chainline", "family": payload[0], "idx": w(0), "a": w(1), "b": w(2), "max": w(3), "what": "crash"}))
+        }
         5 if payload.len() >= 80 => {
             let root = pos_from_bytes(payload);
             let path: Vec<String> = payload[80..]
